@@ -32,8 +32,8 @@ ASSUMPTIONS = [
     "each particle's touched cells do not depend on the other particles (the kernel loops over particles independently)",
 ]
 EXHAUSTIVE_NOTE = {
-    'quick': 'all (n1d<=24) x (nthread in {2,3,5,16}) x (npartition None and every explicit 1..n1d) x offset {0, h/2}, quarter-cell particle set along coord, through O1',
-    'thorough': 'all (n1d<=64) x (nthread 2..16) x (npartition None and every explicit 1..n1d) x offset {0, h/2}, quarter-cell particle set along coord, through O1',
+    'quick': 'all (n1d<=24) x (nthread in {2,3,5,16}) x (npartition None and every explicit 1..n1d) x offset {0, h/2}, quarter-cell particle set along coord plus every stripe boundary +-0..3 ulp, through O1',
+    'thorough': 'all (n1d<=64) x (nthread 2..16) x (npartition None and every explicit 1..n1d) x offset {0, h/2}, quarter-cell particle set along coord plus every stripe boundary +-0..3 ulp, through O1',
 }
 
 
@@ -286,7 +286,7 @@ def exhaustive(tier, shard, nshards):
             k += 1
             if k % nshards != shard:
                 continue
-            yield {'mode': 'grid', 'n1d': n1d, 'offhalf': offk, 'box': 123.0 if n1d % 2 else 64.0, 'dtype': 'f4', 'nthreads': [2, 3, 5, 16] if tier == 'quick' else list(range(2, 17))}
+            yield {'mode': 'grid', 'n1d': n1d, 'offhalf': offk, 'box': 64.0 if (n1d + offk) % 3 == 0 else 123.0, 'dtype': 'f4', 'nthreads': [2, 3, 5, 16] if tier == 'quick' else list(range(2, 17))}
 
 
 def _run_grid(tsc, d):
@@ -303,6 +303,26 @@ def _run_grid(tsc, d):
     offset = float(dt(0.5 * h)) if d['offhalf'] else 0.0
     nacc = nrej = 0
     seen = {}
+    ext_cache = {}
+
+    def extended(nst):
+        """quarter-cell set + every stripe boundary of an nst-stripe partition +- 0..3 ulp (both sides of each key edge)"""
+        if nst not in ext_cache:
+            extra = []
+            for sidx in range(nst + 1):
+                b = dt(box * sidx / nst)
+                for kk in range(-3, 4):
+                    x = _ulps(b, kk, dt)
+                    if 0 <= x <= dt(box):
+                        extra.append(x)
+            allx = np.unique(np.concatenate([xs, np.array(extra, dtype=dt)]))
+            pp = np.empty((len(allx), 3), dtype=dt)
+            pp[:, 0] = allx
+            pp[:, 1] = dt(0.25 * box / 2)
+            pp[:, 2] = dt(0.25 * box / 2)
+            ext_cache[nst] = pp
+        return ext_cache[nst]
+
     for nthread in d.get('nthreads', range(2, 17)):
         for npq in [None] + list(range(1, n1d + 1)):
             dd = {'npartition': npq, 'coord': 0, 'sort': False}
@@ -311,8 +331,11 @@ def _run_grid(tsc, d):
                 nrej += 1
                 continue
             nacc += 1
+            nst = len(caps[0][1]) - 1
+            if nst > 2:
+                grid, caps = _run_parallel(tsc, extended(nst), shape, box, dd, offset, None, nthread, True)
             starts = caps[0][1]
-            key = starts.tobytes()
+            key = starts.tobytes() + caps[0][0][:, 0].tobytes()
             if key in seen:
                 why = seen[key]
             else:
